@@ -1,11 +1,18 @@
 #!/bin/sh
 # usage: tools/confirm_all.sh Cxx ...  — confirms /tmp/mut/Cxx/_out/Cxx_i (copies confirmed ones to seeded/), removes the worktree
+# (only when every output directory is complete: the writer may still be at work otherwise)
 export GOFLAGS=-mod=mod GOPROXY=off GOSUMDB=off GOTOOLCHAIN=local
 for p in "$@"; do
+  incomplete=0
+  for d in /tmp/mut/$p/_out/${p}_*; do
+    [ -d "$d" ] || continue
+    [ -f "$d/meta.json" ] && [ -f "$d/patch.diff" ] || { echo "$d is incomplete: writer still at work? skipping $p"; incomplete=1; }
+  done
+  [ $incomplete = 1 ] && continue
   for d in /tmp/mut/$p/_out/${p}_*; do
     [ -d "$d" ] || continue
     python3 /verif/tools/confirm_mutant.py /tmp/mut/$p "$d" 2>&1 | tail -2
   done
-  mkdir -p /tmp/mut/_keep && cp -r /tmp/mut/$p/_out /tmp/mut/_keep/$p 2>/dev/null
+  mkdir -p /tmp/mut/_keep/$p && cp -r /tmp/mut/$p/_out/. /tmp/mut/_keep/$p/ 2>/dev/null
   git -C /repo worktree remove --force /tmp/mut/$p
 done
